@@ -631,9 +631,9 @@ func generate(r *hxlib.Run, emit func(hxlib.Case)) {
 	countHook = r.Count
 	genCorpus(r, emit)
 	genMalformedOps(r, emit)
-	genFilenames(r, emit, r.Budget(4000, 200000))
+	genFilenames(r, emit, r.Budget(4000, 150000))
 	genOrder(r, emit, r.Budget(10000, 300000))
-	n := r.Budget(700, 30000)
+	n := r.Budget(700, 18000)
 	for i := 0; i < n; i++ {
 		genRandomHistory(r, emit)
 		genLifecycle(r, emit)
